@@ -632,6 +632,36 @@ def rule_rot(ctx) -> None:
                   "the live file is renamed last", "a cascade step or deletion is reachable after the live file was renamed")
 
 
+def rule_rot_failed_move_stops(ctx) -> None:
+    """"rotation keeps the newest N generations in order without losing any but the oldest": the cascade moves path.k to
+    path.(k+1) from the oldest down, and each move overwrites its destination.  If a move fails for any reason other than "the
+    source is not there", the generation stays at path.k - and the NEXT step (path.(k-1) -> path.k, or the live file -> path.1)
+    would overwrite it.  So the only failure a cascade step may swallow is FileNotFoundError; anything else must leave the
+    cascade (propagate, return or break)."""
+    fn = ctx.func("clematis.scripts.rotate_logs:rotate_one")
+    n_moves = 0
+    for x in walk_no_defs(fn.node):
+        if not (isinstance(x, ast.Call) and call_tail(x) in ("atomic_replace", "replace", "rename", "move")):
+            continue
+        if dotted(x.func) in ("str.replace",) or (isinstance(x.func, ast.Attribute) and isinstance(x.func.value, ast.Constant)):
+            continue
+        n_moves += 1
+        for st, part in enclosing(ctx.prog, fn, x):
+            if not (isinstance(st, ast.Try) and part == "body"):
+                continue
+            for h in st.handlers:
+                names = {"*"} if h.type is None else {src(e).split(".")[-1] for e in (h.type.elts if isinstance(h.type, ast.Tuple) else [h.type])}
+                leaves = any(isinstance(y, (ast.Raise, ast.Return, ast.Break)) for b in h.body for y in ast.walk(b))
+                # a broad handler that re-raises everything but FileNotFoundError is fine; one that merely warns is not
+                guarded_reraise = any(isinstance(y, ast.If) and "FileNotFoundError" in src(y.test) and any(isinstance(z, ast.Raise) for b in (y.body + y.orelse) for z in ast.walk(b)) for b0 in h.body for y in ast.walk(b0))
+                broad = bool(names - {"FileNotFoundError"})
+                ctx.check(not broad or leaves or guarded_reraise, "C16.ROT", ctx.okey(f"{fn.qual}/failed-move-stops-the-cascade"), fn.loc(h),
+                          "a cascade step swallows FileNotFoundError only",
+                          f"the handler `except {', '.join(sorted(names))}` around `{src(x)[:50]}` swallows failures other than a missing source and the cascade goes on: the generation that could not be "
+                          "moved is overwritten by the next step, so a generation that is not the oldest is lost")
+    ctx.floor("C16.ROT", "moves of the rotation cascade", n_moves, 2)
+
+
 def run(ctx) -> None:
     rule_line(ctx)
     rule_line_total(ctx)
@@ -640,3 +670,4 @@ def run(ctx) -> None:
     rule_rewrite(ctx)
     rule_rewrite_bytes(ctx)
     rule_rot(ctx)
+    rule_rot_failed_move_stops(ctx)
